@@ -242,7 +242,12 @@ class Eval:
             e2.update(b)
             if a.get("guard") is not None and not self.cond(a["guard"], e2):
                 continue
-            return self.ex(a["body"], e2)
+            try:
+                return self.ex(a["body"], e2)
+            finally:
+                for kk in env:
+                    if kk not in b and kk in e2:
+                        env[kk] = e2[kk]
         raise Unknown("no arm matches " + str(v))
 
     def iff(self, n, env):
